@@ -33,5 +33,11 @@ def postprocess (cfg : RootCfg) (evs : List Ev) (bbox : Option BoundingBox) : Op
         (if wasEmpty then [Ev.end_ cs!"svg"] else [])
   | (_, none, _) => some evs
 
+/-- exactness monitor of `postprocess` (see `derivedExact`) -/
+def postprocessExact (cfg : RootCfg) (evs : List Ev) (bbox : Option BoundingBox) : Bool :=
+  match partitionSvg evs with
+  | (_, some (root, _), _) => derivedExact cfg root.attrs bbox
+  | (_, none, _) => true
+
 end Doc
 end Svgdx
